@@ -1,6 +1,7 @@
 package main
 
 import (
+	"go/token"
 	"fmt"
 	"go/types"
 	"sort"
@@ -114,6 +115,64 @@ func checkC32(r *Run) {
 			}
 		}
 		r.Check("C32-R4", c.fn+" closes "+c.ch+" by a defer in its entry block", r.P.Pos(fn.Pos()), ok, "Shutdown waits on this channel")
+	}
+	// Shutdown touches the strand-owned maps directly (it is on the allowed list for that reason): sound only
+	// after the strand goroutine has stopped — quit is closed, then strandDone is awaited, and only then come
+	// disconnectAll and the direct reads of the maps
+	if fn := r.fn("C32-R1", "daemon/gnet.ConnectionPool.Shutdown"); fn != nil {
+		ff := r.P.Facts(fn)
+		var closeQuit, waitStrand ssa.Instruction
+		var direct []ssa.Instruction
+		for _, b := range fn.Blocks {
+			for _, in := range b.Instrs {
+				switch x := in.(type) {
+				case *ssa.Call:
+					n := calleeName(&x.Call)
+					if n == "close" && strings.HasSuffix(ff.Term(x.Call.Args[0]), ".quit") {
+						closeQuit = x
+					}
+					if n == "daemon/gnet.ConnectionPool.disconnectAll" {
+						direct = append(direct, x)
+					}
+				case *ssa.UnOp:
+					if x.Op == token.ARROW && strings.HasSuffix(ff.Term(x.X), ".strandDone") {
+						waitStrand = x
+					}
+				case *ssa.FieldAddr:
+					if st := derefStruct(x.X.Type()); st != nil {
+						switch st.Field(x.Field).Name() {
+						case "pool", "addresses", "defaultOutgoingConnections", "outgoingConnections":
+							direct = append(direct, x)
+						}
+					}
+				}
+			}
+		}
+		before := func(a, b ssa.Instruction) bool {
+			if a == nil || b == nil {
+				return false
+			}
+			if a.Block() == b.Block() {
+				for _, in := range a.Block().Instrs {
+					if in == a {
+						return true
+					}
+					if in == b {
+						return false
+					}
+				}
+			}
+			return a.Block().Dominates(b.Block())
+		}
+		r.Check("C32-R1", "Shutdown: quit is closed before waiting for the strand goroutine", r.P.Pos(fn.Pos()), before(closeQuit, waitStrand), "")
+		okAll := len(direct) >= 2
+		for _, d := range direct {
+			if !before(waitStrand, d) {
+				okAll = false
+				r.Check("C32-R1", "Shutdown: strand-owned state is touched directly only after the strand goroutine has stopped (<-strandDone)", r.P.Pos(d.Pos()), false, "this access can run concurrently with a strand closure that is still executing")
+			}
+		}
+		r.Check("C32-R1", "Shutdown: every direct access to strand-owned state follows <-strandDone", r.P.Pos(fn.Pos()), okAll, fmt.Sprintf("%d direct accesses", len(direct)))
 	}
 	// strand.Strand returns on quit in both waits
 	if fn := r.fn("C32-R4", "daemon/strand.Strand"); fn != nil {
